@@ -95,12 +95,32 @@ def _check_runtime_types(node: ASTNode, type_map: Mapping[Field, FieldTypeInfo])
     return incorrect_fields
 
 
+def _contains_set(val: Any) -> bool:
+    if isinstance(val, (set, frozenset)):
+        return True
+
+    return isinstance(val, tuple) and any(_contains_set(v) for v in val)
+
+
+def _stable_repr(val: Any) -> str:
+    """repr(val), except that sets (also the ones nested in sets and tuples) are rendered
+    with their elements sorted."""
+    if isinstance(val, (set, frozenset)):
+        items = sorted(_stable_repr(v) for v in val)
+        return f"{type(val).__name__}({{{', '.join(items)}}})"
+
+    if isinstance(val, tuple) and _contains_set(val):
+        items = [_stable_repr(v) for v in val]
+        return f"({items[0]},)" if len(items) == 1 else f"({', '.join(items)})"
+
+    return repr(val)
+
+
 def _stable_str(val: Any) -> str:
     """str(val), except that sets are rendered with their elements sorted, because
     their iteration order depends on insertion order and on the string hash seed."""
-    if isinstance(val, (set, frozenset)):
-        items = sorted(_stable_str(v) if isinstance(v, (set, frozenset)) else repr(v) for v in val)
-        return f"{type(val).__name__}({{{', '.join(items)}}})"
+    if _contains_set(val):
+        return _stable_repr(val)
 
     return str(val)
 
